@@ -1,0 +1,30 @@
+// +build verif
+
+package app
+
+import (
+	"github.com/Oneledger/protocol/action"
+)
+
+// VerifGovUpdateKeys lists the option names a configuration proposal may change (the keys of the
+// registry the proposal handlers look the update function up in).
+func (app *App) VerifGovUpdateKeys() []string {
+	var keys []string
+	for k := range app.Context.govupdate.GovernanceUpdateFunction {
+		keys = append(keys, k)
+	}
+	return keys
+}
+
+// VerifApplyGovUpdate runs the registered update function for key with value against the deliver
+// state, exactly as the finalisation of a passed configuration proposal does (validate, then write
+// the options record and its last-update height). known is false if no function is registered.
+func (app *App) VerifApplyGovUpdate(key, value string) (known bool, ok bool, err error) {
+	fn, known := app.Context.govupdate.GovernanceUpdateFunction[key]
+	if !known {
+		return false, false, nil
+	}
+	ctx := app.Context.Action(&app.header, app.Context.deliver)
+	ok, err = fn(value, ctx, action.ValidateAndUpdate)
+	return true, ok, err
+}
